@@ -159,6 +159,22 @@ def _run_calls(scn, tid, impl, conv, parser, orig_parse, captured, hostfns, name
                 listed = [x for x in parser.list_names(c['src']) if isinstance(x, str)]
             except Exception:
                 listed = None
+        lits = None
+        if scn.get('literals'):
+            # the NUMBER tokens the long-lived lexer produces for this text, in the state it is in now
+            lits = []
+            try:
+                lx = parser.lex.clone()
+                lx.lexpos = 0; lx.lineno = 1; lx.paren_count = 0
+                lx.input(c['src'])
+                while True:
+                    t = lx.token()
+                    if t is None:
+                        break
+                    if t.type == 'NUMBER':
+                        lits.append({'text': [ord(ch) for ch in c['src'][t.lexpos:lx.lexpos]], 'v': conv.deep(t.value)})
+            except Exception:
+                pass
         captured.clear()
         AUDIT['events'] = []
         nvm_before = len(conv.vm)
@@ -210,6 +226,8 @@ def _run_calls(scn, tid, impl, conv, parser, orig_parse, captured, hostfns, name
                       'src': c['src']})
         if listed is not None:
             calls[-1]['listed'] = listed
+        if lits is not None:
+            calls[-1]['lits'] = lits
         if AUDIT['on']:
             calls[-1]['audit'] = sorted(set(AUDIT['events']))
         if TRACER.overflow:
